@@ -223,7 +223,7 @@ theorem atomic_sim {I : Interp} {p : Evm.Params} {S : Nat → Prop} {w0 : Evm.Wo
     (hres : haltWith h (e.data.map (·.eval I)) = r1.2) (hdwf : ∀ b ∈ e.data, b.WF ∧ b.width = 8)
     (hk : Keeps e.st cs.st)
     (hW : WRelM I S (wd w0 cs.created cs.nonce) r1.1 (stoOf (fullOf cs e)) (evalLogs I cs.logs)
-      (balSem I w0 cs.bal))
+      (balSem I w0 cs.bal)) (hHr : HRel I p S r1.1 cs.hsto)
     (hf : haltOk h = false) :
     ∃ kc kcs', kcs = kc :: kcs' ∧ resumeWorld kc r1 = { kc.w with created := r1.1.created } ∧
       WRelM I S (wd w0 k.snapCreated cs.nonce) (resumeWorld kc r1) (stoOf k.snapshot) (evalLogs I k.snapLogs)
@@ -231,7 +231,7 @@ theorem atomic_sim {I : Interp} {p : Evm.Params} {S : Nat → Prop} {w0 : Evm.Wo
       (∀ cs' ∈ (frameEndH cs k ks h e).next,
         RelC I p S w0 cs' (resumeWorld kc r1) (resumeFrame kc r1.2) kcs') ∧
       ∀ r, RunStack p w f kcs r ↔ RunStack p (resumeWorld kc r1) (resumeFrame kc r1.2) kcs' r := by
-  obtain ⟨kc, kcs', hkcs, hrel', hiff⟩ := (frame_end hrel hh hres hdwf hk hW).2 k ks hc
+  obtain ⟨kc, kcs', hkcs, hrel', hiff⟩ := (frame_end hrel hh hres hdwf hk hW hHr).2 k ks hc
   have hconts := hrel.conts
   rw [hc, hkcs] at hconts
   cases hconts with
